@@ -47,6 +47,10 @@ def prev : Ptr → Ptr
   | none => none
   | some j => if j = 0 then none else some (j - 1)
 def pos (p : Ptr) : Nat := p.getD 0
+/-- the node at position `src` was relinked so that it stands in front of the node at `dst ≤ src` -/
+def movePtr (src dst : Nat) : Ptr → Ptr
+  | none => none
+  | some j => if j = src then some dst else if dst ≤ j ∧ j < src then some (j + 1) else some j
 /-- every `next` link of a chain of `n` nodes was turned around -/
 def rev (n : Nat) : Ptr → Ptr
   | none => none
@@ -92,6 +96,12 @@ def del (l : Chain) (p : Nat) : Chain :=
 def swapNodes (l : Chain) (a b : Nat) : Chain :=
   { l with nodes := (l.nodes.set a (l.nodes.getD b 0)).set b (l.nodes.getD a 0),
            head := l.head.swapPtr a b, tail := l.tail.swapPtr a b }
+
+/-- `link_behind(base, ins)` for a node `ins` (position `src`) that is already part of the chain and
+stands behind `base` (position `dst ≤ src`): it is unlinked and relinked in front of `base` -/
+def moveBefore (l : Chain) (src dst : Nat) : Chain :=
+  { l with nodes := (l.nodes.eraseIdx src).insertIdx dst (l.nodes.getD src 0),
+           head := l.head.movePtr src dst, tail := l.tail.movePtr src dst }
 
 /-- every `next` link is turned around (singly linked `reverse`): the chain runs the other way -/
 def flip (l : Chain) : Chain :=
